@@ -1,6 +1,8 @@
 (* C09 property theorems (UintVecMin0).  Statements + exact + Print Assumptions only. *)
 From ZV.Common Require Import Base Run.
 From ZV.C09 Require Import Model ProofsBits ProofsVec ModelSorted Cases ProofsSorted ProofsZip.
+From ZV.C09 Require Import ModelIntVec ProofsIntVecBits ProofsIntVecPack ProofsIntVecGet ProofsIntVecAnalysis ProofsIntVecTop.
+From ZV.C09 Require Import ModelUintVector ProofsUintVector ProofsUintVectorPush ModelMin0Typed ProofsMin0Typed ProofsPush.
 Open Scope N_scope.
 
 (* a field of any supported width never straddles the 64-bit load window *)
@@ -108,3 +110,205 @@ Theorem sorted_uint_vec_build_only_if :
     cfg_valid c = true /\ push_all_sorted None vals = true /\ deltas_fit c vals /\ (sw c < 64 -> samples_fit c vals).
 Proof. exact sbuild_only_if. Qed.
 Print Assumptions sorted_uint_vec_build_only_if.
+
+(* ---------- IntVec<T> (strategy analysis, four encodings, signed mapping, three constructors) ---------- *)
+(* both bit writers OR the masked value in at the bit offset, whichever of their paths they take (window
+   read-modify-write, unaligned 8-byte read-modify-write, bit by bit), for every width 1..64 and every offset
+   whose field lies inside the buffer *)
+Theorem intvec_write_bits :
+  forall d v off w, 1 <= w <= 64 -> off + w <= 8 * blen d ->
+    write_bits d v off w = IOk (orv d (N.land v (N.ones w)) off) /\
+    write_bits_bulk d v off w = IOk (orv d (N.land v (N.ones w)) off).
+Proof. intros d v off w H1 H2. split; [apply write_bits_spec|apply write_bits_bulk_spec]; assumption. Qed.
+Check intvec_write_bits :
+  forall d v off w, 1 <= w <= 64 -> off + w <= 8 * blen d ->
+    write_bits d v off w = IOk (orv d (N.land v (N.ones w)) off) /\
+    write_bits_bulk d v off w = IOk (orv d (N.land v (N.ones w)) off).
+Print Assumptions intvec_write_bits.
+
+(* the bit reader returns the field for every width 1..64 at every offset inside the buffer: the 8-byte window
+   suffices for fields of at most 58 bits at multiples of their width, wider fields that start inside a byte are
+   completed from the ninth byte (the repaired read) *)
+Theorem intvec_read_bits :
+  (forall d off w, 1 <= w <= 64 -> off + w <= 8 * blen d -> read_bits d off w = IOk (field (bmem d) off w)) /\
+  (forall w k, w <= 58 -> (w * k) mod 8 + w <= 64) /\
+  (59 * 5) mod 8 + 59 > 64.
+Proof. split; [exact read_bits_spec|]. split; [exact window_suffices|exact ninth_byte_needed]. Qed.
+Check intvec_read_bits :
+  (forall d off w, 1 <= w <= 64 -> off + w <= 8 * blen d -> read_bits d off w = IOk (field (bmem d) off w)) /\
+  (forall w k, w <= 58 -> (w * k) mod 8 + w <= 64) /\
+  (59 * 5) mod 8 + 59 > 64.
+Print Assumptions intvec_read_bits.
+
+(* whatever strategy is used - raw, min-max, block based (any block size, with a short last block), delta, uniform
+   delta - with parameters that cover the input, on either compression path (compress_with_strategy /
+   compress_with_bulk_strategy_simd), for each of the eight element types: the build succeeds, the length is kept,
+   element i reads back as the stored value (sign included), reads past the end return None *)
+Theorem intvec_any_strategy :
+  forall (simd : bool) t s xs, ety_ok t -> Forall (in_ty t) xs -> covers s (map to_u64 xs) ->
+    exists v, iv_build simd s (map to_u64 xs) = IOk v /\ ilen v = nlen xs /\
+      (forall i, (i < length xs)%nat -> iv_get t v (N.of_nat i) = IOk (Some (nth i xs 0%Z))) /\
+      (forall i, nlen xs <= i -> iv_get t v i = IOk None).
+Proof. exact intvec_any_strategy_proof. Qed.
+Check intvec_any_strategy :
+  forall (simd : bool) t s xs, ety_ok t -> Forall (in_ty t) xs -> covers s (map to_u64 xs) ->
+    exists v, iv_build simd s (map to_u64 xs) = IOk v /\ ilen v = nlen xs /\
+      (forall i, (i < length xs)%nat -> iv_get t v (N.of_nat i) = IOk (Some (nth i xs 0%Z))) /\
+      (forall i, nlen xs <= i -> iv_get t v i = IOk None).
+Print Assumptions intvec_any_strategy.
+
+(* the widths the analyses compute are sufficient for every element: the global range (min-max), the per-block
+   maximum offset and the largest block minimum (block based, short last block included), the maximum adjacent
+   delta, the uniform delta; for the small-dataset analysis, the fast analysis and the full analysis whatever its
+   floating-point ratio comparison answers *)
+Theorem intvec_analysis_widths_cover :
+  forall vals, Forall (fun v => v < W64) vals ->
+    covers (analyze_small_dataset_strategy vals) vals /\
+    covers (analyze_fast_strategy vals) vals /\
+    (forall ratio_cmp, covers (analyze_optimal_strategy ratio_cmp vals) vals) /\
+    (vals <> [] -> covers (analyze_min_max (fst (range_bulk vals)) (snd (range_bulk vals))) vals) /\
+    (forall srt, covers (analyze_block_based vals srt) vals) /\
+    covers (analyze_delta vals) vals /\
+    (forall ud dw, detect_uniform_delta vals = Some ud -> covers (SDelta (hd 0 vals) dw true (Some ud)) vals).
+Proof. exact intvec_analysis_widths_cover_proof. Qed.
+Check intvec_analysis_widths_cover :
+  forall vals, Forall (fun v => v < W64) vals ->
+    covers (analyze_small_dataset_strategy vals) vals /\
+    covers (analyze_fast_strategy vals) vals /\
+    (forall ratio_cmp, covers (analyze_optimal_strategy ratio_cmp vals) vals) /\
+    (vals <> [] -> covers (analyze_min_max (fst (range_bulk vals)) (snd (range_bulk vals))) vals) /\
+    (forall srt, covers (analyze_block_based vals srt) vals) /\
+    covers (analyze_delta vals) vals /\
+    (forall ud dw, detect_uniform_delta vals = Some ud -> covers (SDelta (hd 0 vals) dw true (Some ud)) vals).
+Print Assumptions intvec_analysis_widths_cover.
+
+(* from_slice / from_slice_bulk / from_slice_bulk_simd (ctor 0 / 1 / 2) for every element type and every input *)
+Theorem intvec_construct_get :
+  forall ctor ratio_cmp t xs, ety_ok t -> Forall (in_ty t) xs ->
+    exists v, iv_construct ctor ratio_cmp t xs = IOk v /\ ilen v = nlen xs /\
+      (forall i, (i < length xs)%nat -> iv_get t v (N.of_nat i) = IOk (Some (nth i xs 0%Z))) /\
+      (forall i, nlen xs <= i -> iv_get t v i = IOk None).
+Proof. exact intvec_construct_get_proof. Qed.
+Check intvec_construct_get :
+  forall ctor ratio_cmp t xs, ety_ok t -> Forall (in_ty t) xs ->
+    exists v, iv_construct ctor ratio_cmp t xs = IOk v /\ ilen v = nlen xs /\
+      (forall i, (i < length xs)%nat -> iv_get t v (N.of_nat i) = IOk (Some (nth i xs 0%Z))) /\
+      (forall i, nlen xs <= i -> iv_get t v i = IOk None).
+Print Assumptions intvec_construct_get.
+
+(* ---------- UintVector (raw / min-max bit packing / run length, push with recompression) ---------- *)
+(* bulk construction with whatever strategy covers the input (raw, min-max with a sufficient width, run length):
+   the stored fields read back *)
+Theorem uintvector_any_strategy :
+  forall s vals, vals <> [] -> Forall (fun v => v < W32c) vals -> ucovers s vals ->
+    exists v, uv_build_with s vals = IOk v /\ ustrat v = s /\ ulen v = nlen vals /\ utemp v = [] /\
+      (forall i, (i < length vals)%nat -> uv_get_compressed s (udata v) (N.of_nat i) = IOk (Some (nth i vals 0))).
+Proof. exact uv_build_with_get. Qed.
+Check uintvector_any_strategy :
+  forall s vals, vals <> [] -> Forall (fun v => v < W32c) vals -> ucovers s vals ->
+    exists v, uv_build_with s vals = IOk v /\ ustrat v = s /\ ulen v = nlen vals /\ utemp v = [] /\
+      (forall i, (i < length vals)%nat -> uv_get_compressed s (udata v) (N.of_nat i) = IOk (Some (nth i vals 0))).
+Print Assumptions uintvector_any_strategy.
+
+(* build_from, for every sequence of u32 values and whatever the two floating-point comparisons of the analysis
+   answer: success, length kept, element i reads back, reads past the end return None *)
+Theorem uintvector_get_build :
+  forall fc vals, Forall (fun v => v < W32c) vals ->
+    exists v, uv_build_from fc vals = IOk v /\ ulen v = nlen vals /\ utemp v = [] /\
+      (forall i, (i < length vals)%nat -> uv_get v (N.of_nat i) = IOk (Some (nth i vals 0))) /\
+      (forall i, nlen vals <= i -> uv_get v i = IOk None).
+Proof. exact uv_build_from_get. Qed.
+Check uintvector_get_build :
+  forall fc vals, Forall (fun v => v < W32c) vals ->
+    exists v, uv_build_from fc vals = IOk v /\ ulen v = nlen vals /\ utemp v = [] /\
+      (forall i, (i < length vals)%nat -> uv_get v (N.of_nat i) = IOk (Some (nth i vals 0))) /\
+      (forall i, nlen vals <= i -> uv_get v i = IOk None).
+Print Assumptions uintvector_get_build.
+
+(* incremental construction: pushing the values one by one (pending values, recompression of everything at every
+   64th push) succeeds and is observationally equal to bulk construction - same length, same get at every index *)
+Theorem uintvector_push_equals_bulk :
+  forall fc xs, Forall (fun a => a < W32c) xs ->
+    exists v b, uv_push_all fc uv_new xs = IOk v /\ uv_build_from fc xs = IOk b /\
+      ulen v = nlen xs /\ ulen b = nlen xs /\
+      (forall i, uv_get v i = uv_get b i) /\
+      (forall i, (i < length xs)%nat -> uv_get v (N.of_nat i) = IOk (Some (nth i xs 0))) /\
+      (forall i, nlen xs <= i -> uv_get v i = IOk None).
+Proof. exact uv_push_equals_bulk. Qed.
+Check uintvector_push_equals_bulk :
+  forall fc xs, Forall (fun a => a < W32c) xs ->
+    exists v b, uv_push_all fc uv_new xs = IOk v /\ uv_build_from fc xs = IOk b /\
+      ulen v = nlen xs /\ ulen b = nlen xs /\
+      (forall i, uv_get v i = uv_get b i) /\
+      (forall i, (i < length xs)%nat -> uv_get v (N.of_nat i) = IOk (Some (nth i xs 0))) /\
+      (forall i, nlen xs <= i -> uv_get v i = IOk None).
+Print Assumptions uintvector_push_equals_bulk.
+
+(* ---------- UintVecMin0::build_from_u32 / build_from_i32 ---------- *)
+(* every u32 sequence (the range always fits 58 bits) *)
+Theorem min0_build_from_u32_get :
+  forall src, src <> [] -> Forall (fun v => v < 2 ^ 32) src ->
+    exists m mn, build_from_u32 src = Ok (m, mn) /\ size m = nlen src /\
+      forall i, (i < length src)%nat -> get m (N.of_nat i) = Ok (nth i src 0 - mn) /\ mn <= nth i src 0.
+Proof. exact build_from_u32_get. Qed.
+Check min0_build_from_u32_get :
+  forall src, src <> [] -> Forall (fun v => v < 2 ^ 32) src ->
+    exists m mn, build_from_u32 src = Ok (m, mn) /\ size m = nlen src /\
+      forall i, (i < length src)%nat -> get m (N.of_nat i) = Ok (nth i src 0 - mn) /\ mn <= nth i src 0.
+Print Assumptions min0_build_from_u32_get.
+
+(* every i32 sequence, including i32::MIN together with i32::MAX *)
+Theorem min0_build_from_i32_get :
+  forall src, src <> [] -> Forall in_i32 src ->
+    exists m mn, build_from_i32 src = Ok (m, mn) /\ size m = nlen src /\
+      forall i, (i < length src)%nat ->
+        get m (N.of_nat i) = Ok (Z.to_N (nth i src 0%Z - mn)) /\ (mn <= nth i src 0%Z)%Z.
+Proof. exact build_from_i32_get. Qed.
+Check min0_build_from_i32_get :
+  forall src, src <> [] -> Forall in_i32 src ->
+    exists m mn, build_from_i32 src = Ok (m, mn) /\ size m = nlen src /\
+      forall i, (i < length src)%nat ->
+        get m (N.of_nat i) = Ok (Z.to_N (nth i src 0%Z - mn)) /\ (mn <= nth i src 0%Z)%Z.
+Print Assumptions min0_build_from_i32_get.
+
+(* ---------- incremental construction of UintVecMin0 / ZipIntVec by push_back ---------- *)
+(* push_back on every path - in place, more memory at the same width, rebuild with wider fields - appends the value
+   and keeps every earlier element, for every well-formed vector and every value below 2^58 *)
+Theorem min0_push_back_all_paths :
+  forall m l val, stores m l -> val < 2 ^ 58 ->
+    exists m', push_back m val = Ok m' /\ stores m' (l ++ [val]).
+Proof. exact push_back_spec. Qed.
+Check min0_push_back_all_paths :
+  forall m l val, stores m l -> val < 2 ^ 58 ->
+    exists m', push_back m val = Ok m' /\ stores m' (l ++ [val]).
+Print Assumptions min0_push_back_all_paths.
+
+(* new(0, max) followed by any sequence of pushes (the width grows as needed): every element reads back *)
+Theorem min0_push_all_get :
+  forall mx vals, mx < 2 ^ 58 -> Forall (fun v => v < 2 ^ 58) vals ->
+    exists m0 m, new 0 mx = Ok m0 /\ push_all m0 vals = Ok m /\ size m = nlen vals /\
+      (forall i, (i < length vals)%nat -> get m (N.of_nat i) = Ok (nth i vals 0)) /\
+      (forall i, nlen vals <= i -> get m i = Panic).
+Proof. exact min0_push_all_get_proof. Qed.
+Check min0_push_all_get :
+  forall mx vals, mx < 2 ^ 58 -> Forall (fun v => v < 2 ^ 58) vals ->
+    exists m0 m, new 0 mx = Ok m0 /\ push_all m0 vals = Ok m /\ size m = nlen vals /\
+      (forall i, (i < length vals)%nat -> get m (N.of_nat i) = Ok (nth i vals 0)) /\
+      (forall i, nlen vals <= i -> get m i = Panic).
+Print Assumptions min0_push_all_get.
+
+(* ZipIntVec::new(0, mn, mx); resize(0); push_back of every value: the same observations as bulk construction *)
+Theorem zip_push_get :
+  forall mn mx src, mn < mx -> mx - mn < 2 ^ 58 ->
+    Forall (fun v => mn <= v /\ v - mn < 2 ^ 58 /\ v < W64) src ->
+    exists z, zip_build_push mn mx src = Ok z /\ size (inner z) = nlen src /\
+      (forall i, (i < length src)%nat -> zip_get z (N.of_nat i) = Ok (nth i src 0)) /\
+      (forall i, nlen src <= i -> zip_get z i = Panic).
+Proof. exact zip_push_get_proof. Qed.
+Check zip_push_get :
+  forall mn mx src, mn < mx -> mx - mn < 2 ^ 58 ->
+    Forall (fun v => mn <= v /\ v - mn < 2 ^ 58 /\ v < W64) src ->
+    exists z, zip_build_push mn mx src = Ok z /\ size (inner z) = nlen src /\
+      (forall i, (i < length src)%nat -> zip_get z (N.of_nat i) = Ok (nth i src 0)) /\
+      (forall i, nlen src <= i -> zip_get z i = Panic).
+Print Assumptions zip_push_get.
